@@ -152,7 +152,16 @@ def mutants(argv: List[str]) -> int:
             if m["old"] not in orig:
                 results.append((m["id"], m["property"], "STALE", "pattern not found"))
                 continue
-            open(path, "w").write(orig.replace(m["old"], m["new"], 1))
+            text = orig.replace(m["old"], m["new"], 1)
+            for o2, n2 in m.get("edits", []):
+                if o2 not in text:
+                    text = None
+                    break
+                text = text.replace(o2, n2, 1)
+            if text is None:
+                results.append((m["id"], m["property"], "STALE", "second pattern not found"))
+                continue
+            open(path, "w").write(text)
             try:
                 fails = _suite_failures(scratch)
                 suite_ok = fails == baseline_fail
